@@ -127,7 +127,7 @@ fn which_custom(
     _r: Option<&gherkin::Rule>,
     s: &gherkin::Scenario,
 ) -> ScenarioType {
-    if s.name.contains("_SER") { ScenarioType::Serial } else { ScenarioType::Concurrent }
+    if crate::plan::scenario_identity(s).contains("_SER") { ScenarioType::Serial } else { ScenarioType::Concurrent }
 }
 
 pub type SimRunner =
@@ -156,7 +156,7 @@ pub fn build_runner(plan: &Plan) -> SimRunner {
     if let Some(map) = &cfg.closure_retry {
         let map = map.clone();
         r = r.retry_options(move |_f, _r, s, _cli| {
-            map.get(&s.name).map(|(n, after)| RetryOptions {
+            map.get(&crate::plan::scenario_identity(s)).map(|(n, after)| RetryOptions {
                 retries: event::Retries::initial(*n),
                 after: after.map(Duration::from_nanos),
             })
